@@ -90,9 +90,17 @@ func (m *Mutex) Held() bool {
 }
 
 // RWMutex replaces sync.RWMutex.
+//
+// Writer preference is modelled as sync.RWMutex implements it: a writer first
+// takes the writers' inner mutex and announces itself (wHeld), which blocks
+// every RLock that arrives from then on, and then waits for the readers that
+// were already inside to leave. A goroutine that read-locks a mutex it already
+// holds for reading therefore deadlocks as soon as a writer announced itself
+// in between, exactly as with the real primitive.
 type RWMutex struct {
 	real    sync.RWMutex
 	writer  string
+	wHeld   string
 	readers int
 }
 
@@ -105,17 +113,26 @@ func (m *RWMutex) Lock() {
 	}
 	if k.IsController() {
 		k.mu.Lock()
-		if m.writer != "" || m.readers != 0 {
+		if m.writer != "" || m.wHeld != "" || m.readers != 0 {
 			k.mu.Unlock()
 			panic(HarnessError{"controller would block on a rwmutex"})
 		}
-		m.writer = "ctl"
+		m.writer, m.wHeld = "ctl", "ctl"
 		k.held[m] = "ctl"
 		k.mu.Unlock()
 		return
 	}
 	a := k.Me()
+	// Phase one: the inner mutex and the announcement (at once the whole
+	// acquisition when no reader is inside).
 	k.park(a, &Ticket{kind: tLock, rw: m})
+	k.mu.Lock()
+	acquired := m.writer == a.Name
+	k.mu.Unlock()
+	if !acquired {
+		// Phase two: wait for the readers that were inside to leave.
+		k.park(a, &Ticket{kind: tLockDrain, rw: m})
+	}
 }
 
 // TryLock attempts to acquire the write lock.
@@ -130,14 +147,14 @@ func (m *RWMutex) TryLock() bool {
 	}
 	k.mu.Lock()
 	defer k.mu.Unlock()
-	if m.writer != "" || m.readers != 0 {
+	if m.writer != "" || m.wHeld != "" || m.readers != 0 {
 		return false
 	}
 	name := "ctl"
 	if g := goid(); g != k.controller {
 		name = k.actors[g].Name
 	}
-	m.writer = name
+	m.writer, m.wHeld = name, name
 	k.held[m] = name
 	return true
 }
@@ -154,7 +171,7 @@ func (m *RWMutex) Unlock() {
 		k.mu.Unlock()
 		panic("sync: Unlock of unlocked RWMutex")
 	}
-	m.writer = ""
+	m.writer, m.wHeld = "", ""
 	delete(k.held, m)
 	k.mu.Unlock()
 }
@@ -193,7 +210,7 @@ func (m *RWMutex) TryRLock() bool {
 	}
 	k.mu.Lock()
 	defer k.mu.Unlock()
-	if m.writer != "" {
+	if m.writer != "" || m.wHeld != "" {
 		return false
 	}
 	m.readers++
